@@ -1,12 +1,15 @@
-(* C08 -- property theorems only.  Statements are about the structural model of the decompositions
-   (Model/Structure.v: rank validators, shape flow, loop skeleton of the CP drivers) and, over R, about
-   matrices given as functions nat -> nat -> R with explicit dimensions (Proofs/StructureProofsR.v).
-   `_partial` = holds under the named extra hypothesis; `_refuted` = witnesses that the hypothesis is needed
-   (here: for the control flow before the repairs 3de556b / fe25b5c, kept as regression witnesses). *)
+(* C08 -- property theorems only.  Statements are about
+   - the structural model of the decompositions (Model/Structure.v: rank validators, shape flow, loop skeletons of the CP / nn-Tucker /
+     PARAFAC2 drivers with respect to normalisation) and the HOOI skeleton of tucker / partial_tucker (Model/StructureHooi.v),
+   - over an arbitrary commutative ring with conjugation (Proofs/StructureConj.v; R and C = R x R are instances): the Tucker canonical form
+     for real and complex data -- unitary factors, core = projection with the CONJUGATE transpose, for tensors of every order,
+   - over R, matrices given as functions nat -> nat -> R with explicit dimensions (Proofs/StructureProofsR.v, StructureNormR.v).
+   `_partial` = holds under the named extra hypothesis; `_refuted` = witnesses that the hypothesis is needed (here only for control flows
+   before repairs in /repo, named `_old_` / `before_<commit>`, kept as regression witnesses). *)
 From Coq Require Import List Arith ZArith QArith Reals Bool Lia.
 From TLV Require Import Base.Shape Base.Tensor Base.RSum Model.Structure Proofs.StructureProofs Proofs.StructureProofs2
   Proofs.StructureProofs3 Proofs.StructureProofs4 Proofs.StructureProofsQ Proofs.StructureProofsR Proofs.StructureNormR
-  Base.BigSum Proofs.StructureConj Proofs.StructureConjR Model.StructureHooi Proofs.StructureHooiProofs Proofs.StructureHooiConj.
+  Base.BigSum Proofs.StructureConj Proofs.StructureConjR Proofs.StructureConjCompose Model.StructureHooi Proofs.StructureHooiProofs Proofs.StructureHooiConj.
 From TLV Require Import Model.StructureQ.
 Import ListNotations.
 Local Open Scope nat_scope.
@@ -490,6 +493,22 @@ Theorem C08_tucker_pythagoras : forall (K : Type) (k0 k1 : K) (kadd kmul ksub : 
   tinner K k0 kadd kmul conj shape X X = kadd (tinner K k0 kadd kmul conj ranks core core) (tinner K k0 kadd kmul conj shape resid resid).
 Proof. exact pythagoras_b. Qed.
 Print Assumptions C08_tucker_pythagoras.
+(* two successive projections compose, mode by mode: (X x_k A_k^H) x_k B_k^H = X x_k (A_k B_k)^H for every order.  tucker(fixed_factors=...)
+   projects onto the updated modes inside partial_tucker (identity on the fixed modes) and then onto the fixed factors (identity elsewhere);
+   a product with the identity gives the factor back, so together that is the projection onto ALL returned factors *)
+Theorem C08_projection_compose : forall (K : Type) (k0 k1 : K) (kadd kmul ksub : K -> K -> K) (kopp : K -> K),
+  ring_theory k0 k1 kadd kmul ksub kopp eq -> forall conj : K -> K,
+  (forall a b, conj (kadd a b) = kadd (conj a) (conj b)) -> (forall a b, conj (kmul a b) = kmul (conj a) (conj b)) ->
+  forall (s1 mid : list nat) (As Bs : list (nat -> nat -> K)) (X : tens K) (ldx : list nat),
+  length As = length mid -> length Bs = length mid -> length s1 = length mid -> length ldx = length mid ->
+  tproj K k0 k1 kadd kmul conj mid Bs (tproj K k0 k1 kadd kmul conj s1 As X) ldx = tproj K k0 k1 kadd kmul conj s1 (compose K k0 kadd kmul mid As Bs) X ldx.
+Proof. exact tproj_compose. Qed.
+Print Assumptions C08_projection_compose.
+Theorem C08_compose_identity : forall (K : Type) (k0 k1 : K) (kadd kmul ksub : K -> K -> K) (kopp : K -> K),
+  ring_theory k0 k1 kadd kmul ksub kopp eq -> forall d (A : nat -> nat -> K) i l,
+  (l < d -> kmmul K k0 kadd kmul d A (kdelta K k0 k1) i l = A i l) /\ (i < d -> kmmul K k0 kadd kmul d (kdelta K k0 k1) A i l = A i l).
+Proof. exact (fun K k0 k1 kadd kmul ksub kopp Kth d A i l => conj (kmmul_id_r K k0 k1 kadd kmul ksub kopp Kth d A i l) (kmmul_id_l K k0 k1 kadd kmul ksub kopp Kth d A i l)). Qed.
+Print Assumptions C08_compose_identity.
 (* non-vacuity: R (conj = id) and C = R x R are rings with conjugation; on C the conjugation is not the identity (i * conj i = 1,
    i * i = -1); (3/5, 4i/5) is a 2 x 1 complex factor with a unitary column that is NOT orthonormal for the unconjugated product *)
 Example C08_conj_rings_ex : is_conj Rplus Rmult (fun x : R => x) /\
